@@ -348,8 +348,10 @@ RESET_TIMER:
 					default:
 					}
 				}
-				goto RESET_TIMER
 			}
+			// always reload the deadline: it may have been set for the first time
+			// while this call was blocked (timeout == nil until then).
+			goto RESET_TIMER
 		case <-c:
 			return 0, errors.WithStack(errTimeout)
 		case <-s.chSocketReadError:
@@ -440,8 +442,10 @@ RESET_TIMER:
 					default:
 					}
 				}
-				goto RESET_TIMER
 			}
+			// always reload the deadline: it may have been set for the first time
+			// while this call was blocked (timeout == nil until then).
+			goto RESET_TIMER
 		case <-c:
 			return 0, errors.WithStack(errTimeout)
 		case <-s.chSocketWriteError:
